@@ -337,6 +337,8 @@ def check_content(ctx, c):
                 if must not in names and not gone:
                     ctx.fail(c, f"{must} is neither reported as a file nor as a read error: files/read errors {sorted(seen)}")
             shadowed = c["where"] == "dotlicense" and c["fault_on"] == "src/sub/b.py"  # the sibling is read instead
+            if c["where"] == "gitmodules" and c["fault_on"] == "src/sub/b.py" and b"sub" in c["data"]:
+                shadowed = True  # src/sub may be a submodule: its files are not covered, hence never opened
             if c["fault"] == "eacces" and c["fault_on"] != "LICENSES/MIT.txt" and not shadowed:
                 if not any(c["fault_on"] in e for e in data["non_compliant"]["read_errors"]):
                     ctx.fail(c, f"unreadable {c['fault_on']} is not listed under read errors: {data['non_compliant']['read_errors']}")
